@@ -549,6 +549,15 @@ func main() {
 		if line == "" {
 			continue
 		}
+		if strings.Contains(line, `"mode": "script"`) || strings.Contains(line, `"mode":"script"`) {
+			var sh scriptHistory
+			if err := json.Unmarshal([]byte(line), &sh); err != nil {
+				fmt.Fprintf(out, "?\tBADJSON %v\n", err)
+				continue
+			}
+			runScriptHistory(&sh, out)
+			continue
+		}
 		var h history
 		if err := json.Unmarshal([]byte(line), &h); err != nil {
 			fmt.Fprintf(out, "?\tBADJSON %v\n", err)
